@@ -16,13 +16,13 @@ CLAIMED = {
             "Detailed balance of the reference kernel itself is the algebra of DESIGN.md Appendix A; numerically it is backed by the stationarity batch (which would also see a bias of the reference law). Divergent trajectories are outside the quantifier; near-ties and numerically unstable orbits (energy spread > 2) are skipped for R1 and counted.",
             "DESIGN.md §5 C01, Appendix A"),
     "C02": (ENGINE_A, "exploration",
-            "direct drive of the real Hamiltonian::leapfrog (hook H3) from a scripted momentum; every visited state (trajectory tap) compared with a dense-matrix reference",
-            "Sequences of single leapfrog steps of both signs for explicit diagonal / low-rank transformations (dimension 1..64, rank 0..d) and the three kinetic energies: x = F(y)+mu for every state (inverse consistent with the forward map), gradient pull-back, documented log-determinant, energy, each step equals the textbook leapfrog in the original space for M^-1 = F F^T (ExactNormal: residual kick / rotation / kick; Microcanonical: unit momentum, closed-form ESH half kick / drift sqrt(d) eps v / half kick for both signs, kinetic-energy change), forward+backward returns the start, ExactNormal conserves the energy on a standard normal.",
-            "Weak fit for the family: the property is a pure function of its inputs except for the re-derivation of whitened coordinates after a transformation change (covered in adaptive chains by C03's next-trajectory oracle). Volume preservation and the O(eps^2) order are not measured (they follow from equality with the textbook map). Microcanonical sequences with an ESH kick |delta| > 5 are skipped and counted (conditioning of the closed form for backward steps).",
+            "direct drive of the real Hamiltonian::leapfrog (hook H3) from a scripted momentum, every visited state (trajectory tap) compared with a dense-matrix reference; plus seeded simulation of real chains (all presets, density fault injection, MCLMC step-size retries) whose trajectory taps are audited state by state",
+            "Sequences of single leapfrog steps of both signs for explicit diagonal / low-rank transformations (dimension 1..64, rank 0..d) and the three kinetic energies: x = F(y)+mu for every state (inverse consistent with the forward map), gradient pull-back, documented log-determinant, energy, each step equals the textbook leapfrog in the original space for M^-1 = F F^T (ExactNormal: residual kick / rotation / kick; Microcanonical: unit momentum, closed-form ESH half kick / drift sqrt(d) eps v / half kick for both signs, kinetic-energy change), forward+backward returns the start, ExactNormal conserves the energy on a standard normal. Batch real_runs: in real chains with adaptation, injected faults and dynamic step-size retries every state a leapfrog produced is the half-kick / drift / half-kick image, with the one step size reported for that leapfrog, of an earlier state of its trajectory, and all states of a trajectory (start state included) are related to their whitened coordinates by one affine map ((x_k - x_0).g_x,m = (y_k - y_0).g_y,m, equal log-determinants) - no knowledge of the transformation needed.",
+            "Weak fit for the direct-drive part (a pure function of its inputs); the history-dependent part - re-derivation of whitened coordinates after a transformation change, step-size factors that change between consecutive steps, retries - is what the real_runs batch covers (MCLMC there runs with a momentum decoherence length of 1e300 so that the tap shows the velocity a step starts from). Volume preservation and the O(eps^2) order are not measured (they follow from equality with the textbook map). Microcanonical sequences with an ESH kick |delta| > 5 are skipped and counted (conditioning of the closed form for backward steps).",
             "DESIGN.md §5 C02"),
     "C03": (ENGINE_A, "exploration",
             "seeded simulation of single-chain histories with a record of every density evaluation and of every momentum draw (SimMath seam); per-draw membership and consistency oracle",
-            "Seeded search over NUTS presets x maxdepth/mindepth/max_energy_error/target_integration_time/kinetic energy x targets (dimension 0 and 1 included) x histories with natural and injected divergences. Every returned draw must be the start or a fault-free evaluated position of its own trajectory (bitwise), its logp/gradient statistics must be what the density returned there, index 0 iff not moved, depth/steps/index bounds, at least one step, maxdepth flag; for Diag NUTS the first evaluated position of the next trajectory must be the reference-leapfrog image of the draw under the reported scales, step size and the observed momentum.",
+            "Seeded search over NUTS presets x maxdepth/mindepth/max_energy_error/target_integration_time/kinetic energy x targets (dimension 0 and 1 included) x histories with natural and injected divergences. Every returned draw must be the start or a fault-free evaluated position of its own trajectory (bitwise), its logp/gradient statistics must be what the density returned there, index 0 iff not moved, depth/steps/index bounds, at least one step, maxdepth flag; for Diag NUTS the first evaluated position of the next trajectory must be the reference-leapfrog image of the draw under the reported scales, step size and the observed momentum; for every preset the start state of each trajectory must be related to its whitened coordinates by the same affine map as the states the integrator produced from it (transformation-agnostic identity over the trajectory tap).",
             "With the trajectory tap (hook H3) RefNuts recomputes, from the visited states, the U-turn criterion of the whole trajectory and of every balanced sub-trajectory in build order and therefore where the doubling had to stop: reported depth, stop reason, maxdepth flag and the accepted block must match (near-ties skipped and counted). extra_doublings>0 and target_integration_time are outside the audit.",
             "DESIGN.md §5 C03"),
     "C04": (ENGINE_A, "exploration",
@@ -46,8 +46,8 @@ CLAIMED = {
             "Schema = what Settings::stat_* report for the same math object; density stub trusted.",
             "DESIGN.md §5 C16"),
     "C07": (ENGINE_A, "exploration",
-            "seeded simulation of adaptive chains; acceptance histories of every kind produced by the environment (fault injection, ExactNormal on a standard normal, always-diverging densities); refinement of the reported step sizes against a reference dual-averaging / Adam recursion",
-            "The reference recursion (ten lines: clamped iterate, count^-k weighted average; Adam) is fed the observed per-draw acceptance statistics - plain before the late phase, symmetric in it, the late phase decided from the hook-H4 window counters - and must reproduce step_size_bar and step_size of every warmup draw to 1e-8 (within the jitter band when jitter is on), re-synchronising on the result of a step-size search; every step size is finite and positive and the iterate never exceeds max_step_size; a closed-loop batch checks the post-warmup acceptance against a wide band around the target. Every step-size search (the initial one in set_position and the re-run after the first transformation change) is audited at the trajectory tap, which reports every one-step trial with its step size and energy: the step size in force afterwards must be a tried step whose acceptance exp(E0 - E) lies on the other side of the target than another trial at half, double or the same step (a divergent trial counts as 0), or lie beyond the search range, or be the documented fallback (initial_step after a divergent trial); tried steps are the initial step times powers of two.",
+            "seeded simulation of adaptive chains; acceptance histories of every kind produced by the environment (fault injection of every kind: recoverable errors, NaN / inf values and gradients, energy jumps; ExactNormal on a standard normal, always-diverging densities); refinement of the reported step sizes against a reference dual-averaging / Adam recursion",
+            "The reference recursion (ten lines: clamped iterate, count^-k weighted average; Adam) is fed the observed per-draw acceptance statistics - plain before the late phase, symmetric in it, the late phase decided from the hook-H4 window counters - and must reproduce step_size_bar and step_size of every warmup draw to 1e-8 (within the jitter band when jitter is on), re-synchronising on the result of a step-size search; every step size is finite and positive and the iterate never exceeds max_step_size; the acceptance statistics fed to the estimator are probabilities whenever the trajectory made a step; a closed-loop batch checks the post-warmup acceptance against a wide band around the target. Every step-size search (the initial one in set_position and the re-run after the first transformation change) is audited at the trajectory tap, which reports every one-step trial with its step size and energy: the step size in force afterwards must be a tried step whose acceptance exp(E0 - E) lies on the other side of the target than another trial at half, double or the same step (a divergent trial counts as 0), or lie beyond the search range, or be the documented fallback (initial_step after a divergent trial); tried steps are the initial step times powers of two.",
             "Monotonicity is a property of the reference recursion (argued in DESIGN.md); searches with a failed trial evaluation or an acceptance within 1e-12 of the target are counted, not judged. Runs whose first update is clamped cannot be initialised and are skipped (counted).",
             "DESIGN.md §5 C07"),
     "C08": (ENGINE_A, "exploration",
@@ -86,9 +86,9 @@ CLAIMED = {
             "CSV and the async Zarr writer are not driven yet. NaN payloads are not compared. The model is the list of values handed to record_sample.",
             "DESIGN.md §5 C14"),
     "C15": (ENGINE_C, "fault_enumeration",
-            "Zarr writer over a fault/snapshot store: crash point after every flush, k-th store write failing",
-            "Per history a flush follows recorded draws with probability up to 1 (crash point after every recorded draw), for chunk sizes 1, smaller than, equal to, larger than and not dividing the draw counts; after each flush a fresh zarrs reader on a snapshot of the store must read the acknowledged prefix of every variable and statistic of the flushed chain (all chains' earlier acknowledgements are re-checked periodically and after finalize). A second batch fails the k-th store write: the call must return Err without panic and acknowledged prefixes must still read back. An engine-B batch runs the real Sampler with flush-heavy scripts under the seeded scheduler: a flush() that returned Ok must have reached every chain's storage after the draws recorded before it was invoked.",
-            "Sync writer on the zarrs MemoryStore and (a fifth of the flush-point runs, a quarter of the write-fault runs) on the real zarrs FilesystemStore in a scratch directory; async writer on a delaying in-memory store (tokio itself is not under the simulator, DESIGN.md §0.3). A crash is 'the process stops between two calls; what the store holds at that moment survives' - torn or lost writes inside a call are outside the property's quantifier.",
+            "Zarr writer over a fault/snapshot store: crash point after every flush and after every single store write (write log replayed into a fresh store), k-th store write failing",
+            "Per history a flush follows recorded draws with probability up to 1 (crash point after every recorded draw), for chunk sizes 1, smaller than, equal to, larger than and not dividing the draw counts; after each flush a fresh zarrs reader on a snapshot of the store must read the acknowledged prefix of every variable and statistic of the flushed chain (all chains' earlier acknowledgements are re-checked periodically and after finalize). A second batch fails the k-th store write: the call must return Err without panic and acknowledged prefixes must still read back. Two batches (sync and async writer) take a crash point after EVERY store write (set / erase, metadata included): the store as a fresh reader would find it after that write must still hold every prefix acknowledged by the flushes that had returned before it (a process that stops in the middle of a later record_sample, flush, warmup-to-sampling switch or finalize). An engine-B batch runs the real Sampler with flush-heavy scripts under the seeded scheduler: a flush() that returned Ok must have reached every chain's storage after the draws recorded before it was invoked.",
+            "Sync writer on the zarrs MemoryStore and (a fifth of the flush-point runs, a quarter of the write-fault runs) on the real zarrs FilesystemStore in a scratch directory; async writer on a delaying in-memory store (tokio itself is not under the simulator, DESIGN.md §0.3). A crash is 'the process stops between two store writes (or between two calls); what the store holds at that moment survives' - a key of the store is the unit of atomicity; torn writes inside one key and lost writes of the storage medium are outside the property's quantifier.",
             "DESIGN.md §5 C15"),
     "C18": (ENGINE_A, "exploration",
             "seeded simulation of MCLMC chains with fault injection (divergence position, nested step-size retries); every ESH update / normalisation observed at the delegating Math seam compared with the closed form; history oracles",
